@@ -32,6 +32,7 @@ N_All    == {"Lin", "Log", "Square", "LinRel", "LinTanh"}
 N_Lin    == {"Lin"}
 N_Three  == {"Lin", "Log", "Square"}
 N_Two    == {"Lin", "Log"}
+N_NoTanh == {"Lin", "Log", "Square", "LinRel"}
 FL_All   == { <<FALSE, FALSE>>, <<FALSE, TRUE>>, <<TRUE, FALSE>>, <<TRUE, TRUE>> }
 FL_Plain == { <<FALSE, FALSE>> }
 FL_Two   == { <<FALSE, FALSE>>, <<TRUE, TRUE>> }
@@ -47,5 +48,11 @@ O_Hist   == { <<"sympy", TRUE, "asc", "comp", "net">>, <<"numpy", TRUE, "rev", "
 O_Some   == { <<"sympy", TRUE, "asc", "comp", "net">>, <<"numpy", TRUE, "rev", "formula", "other">>,
               <<"math", TRUE, "asc", "formula", "net">>, <<"sympy", FALSE, "rev", "comp", "self">>,
               <<"numpy", FALSE, "asc", "comp", "net">>, <<"sympy", TRUE, "rev", "formula", "inact">> }
+T_Exp == -9
+T_None == {}
+T_Protons == {2, 3}        \* H+ and OH- on the 1e-9 scale: water-type constants around 1e-18
+O_Trace == { <<"sympy", TRUE, "asc", "comp", "net">>, <<"sympy", FALSE, "asc", "comp", "net">>,
+             <<"numpy", FALSE, "rev", "formula", "net">>, <<"math", TRUE, "rev", "formula", "self">> }
+K_NoExtent == {"none", "scale", "shift0"}
 O_Written == { <<"sympy", TRUE, "asc", "comp", w>> : w \in {"net", "self", "other", "inact"} }
 =============================================================================
